@@ -17,6 +17,8 @@ type ODProfile struct {
 	Slices     bool
 	// FinalDelete may end the scenario with the deletion of the deployment (cascading teardown through the garbage collector).
 	FinalDelete bool
+	// HostileLimits: revisionHistoryLimit takes legal but absurd values (negative, huge).
+	HostileLimits bool
 	// SliceDrift adds a third party that deletes ObjectSlices (only with Slices).
 	SliceDrift bool
 }
@@ -103,7 +105,10 @@ func GenOD(w *World, prof ODProfile) *Scenario {
 		start = s.Intn(nT, "start-template")
 		spec["template"].(map[string]any)["spec"] = store.Copy(g.Templates[start])
 	}
-	if prof.Limits {
+	if prof.HostileLimits {
+		// values the CRD schema accepts although they make no sense
+		spec["revisionHistoryLimit"] = []int64{-1, -7, 2147483647, 0}[s.Intn(4, "hostile-history-limit")]
+	} else if prof.Limits {
 		switch s.Intn(4, "history-limit") {
 		case 0:
 			spec["revisionHistoryLimit"] = int64(0)
